@@ -83,6 +83,10 @@ def corpus_cases(ctx, v, n_files=0, all_files=False, n_w3=0, w4=True, w1=True, m
         elif i % 7 == 6:
             c["opt"] = 1
         cases.append(c)
+    if n_w3:
+        # W4a: the same generated programs re-lined through the AST (real compiler, hostile line numbers)
+        for i in range(max(4, n_w3 // 3)):
+            cases.append({"k": "ast", "seed": ctx.seed, "i": i, "base": {"k": "gen", "seed": ctx.seed, "i": i, "size": w3_size}})
     if w4:
         if w4_filter is None:
             cases.extend(gen_w4.twin_sequences(pyver(v)))
